@@ -264,11 +264,8 @@ pub fn inverses_for(evs: &[Ev]) -> HashMap<u64, Vec<Value>> {
 
 /// Reference seed-nonce derivation (Nonce.tla): Blake2b-512 keyed MAC, key = 0x00 || seed || ['j' || LE32(j)] || ['k' || LE32(k)],
 /// persona = label, empty salt and message, output reduced mod l.
-pub fn ref_nonce(seed: &Scalar, label: &str, j: Option<u32>, k: Option<u32>) -> Scalar {
-    use blake2::Blake2bMac512;
-    use digest::FixedOutput;
-    let mut key = vec![0u8];
-    key.extend_from_slice(seed.as_bytes());
+pub fn nonce_key_suffix(j: Option<u32>, k: Option<u32>) -> Vec<u8> {
+    let mut key = vec![];
     if let Some(j) = j {
         key.push(b'j');
         key.extend_from_slice(&j.to_le_bytes());
@@ -277,6 +274,14 @@ pub fn ref_nonce(seed: &Scalar, label: &str, j: Option<u32>, k: Option<u32>) -> 
         key.push(b'k');
         key.extend_from_slice(&k.to_le_bytes());
     }
+    key
+}
+pub fn ref_nonce(seed: &Scalar, label: &str, j: Option<u32>, k: Option<u32>) -> Scalar {
+    use blake2::Blake2bMac512;
+    use digest::FixedOutput;
+    let mut key = vec![0u8];
+    key.extend_from_slice(seed.as_bytes());
+    key.extend_from_slice(&nonce_key_suffix(j, k));
     let h = Blake2bMac512::new_with_salt_and_personal(&key, &[], label.as_bytes()).expect("blake2b parameters");
     let mut out = [0u8; 64];
     out.copy_from_slice(h.finalize_fixed().as_slice());
